@@ -109,6 +109,41 @@ def leaf_rules(chk, lab, impl, size, runs):
             detail = 'writes after the leaf write'
     chk.ob('leaf-write', '%s: Ok paths write exactly one, previously unused, level-%d slot with frame | flags%s' % (lbl((impl, size, 'map_to')), leaf, ' | HUGE_PAGE' if huge else ''), good, detail, site,
            sample=repr(want))
+    # parent entries on the successful paths: a fresh link carries exactly the requested parent flags; an existing entry keeps
+    # every bit it had (address and the rights earlier maps asked for) and gains the requested ones
+    goodp = bool(oks)
+    detailp = ''
+    np_ = 0
+    for ps in oks:
+        for s in ps.steps:
+            if s.k != 'write' or s.level is None or s.level <= leaf:
+                continue
+            np_ += 1
+            old, new = s.old, s.new
+            if not (isinstance(old, BV) and isinstance(new, BV)):
+                goodp, detailp = False, 'level-%d entry written with %r' % (s.level, new)
+                continue
+            pf = {1: lit('pf', 1), 2: lit('pf', 2)}
+            pfk = {i: ps.st.env.get(('pf', i)) for i in pf}     # value of the requested bit when this path has fixed it
+            if old.is_const() and old.value() == 0:
+                # (the recursive mapper links new tables WRITABLE regardless: the rights must *include* the requested ones)
+                okw = new.bits[0] == 1 and all(new.bits[i] == 1 or new.bits[i] == (pfk[i] if pfk[i] is not None else pf[i]) for i in (1, 2)) and \
+                    all(new.bits[i] == 0 for i in list(range(3, 12)) + list(range(52, 64)))
+            else:
+                okw = True
+                for i, (ob, nb) in enumerate(zip(old.bits, new.bits)):
+                    if i == 0:
+                        okw = okw and nb in (1, ob)
+                    elif i in pf:
+                        sym_or = isinstance(nb, tuple) and nb[0] == 'or' and ob in nb[1] and pf[i] in nb[1]
+                        okw = okw and (sym_or or (pfk[i] == 0 and nb == ob) or (pfk[i] == 1 and nb == 1) or (ob == 1 and nb == 1) or (ob == 0 and pfk[i] is None and nb == pf[i]))
+                    else:
+                        okw = okw and nb == ob
+            if not okw:
+                goodp = False
+                detailp = 'level-%d entry: %r -> %r' % (s.level, old, new)
+    chk.ob('parent-write', '%s: Ok paths leave in every parent entry the bits it had plus PRESENT and the requested WRITABLE/USER_ACCESSIBLE' % lbl((impl, size, 'map_to')),
+           goodp, detailp or '%d parent writes' % np_, site)
     # update_flags: keeps the address bits, replaces the flags
     fn_, pss = runs[(impl, size, 'update_flags')]
     site = I.fn[fn_]['loc']
